@@ -184,7 +184,19 @@ fn phase(h: &mut Hist, l: &mut Local, rng: &mut Rng, words: &Words, first: bool)
     h.observe(l);
     if rng.chance(1, 5) {
         // clone and refused call: the clone taken before behaves the same afterwards
-        let before = h.g.clone();
+        let before = if rng.chance(1, 2) {
+            h.g.clone()
+        } else {
+            // clone_from onto a generator with a history of its own
+            let mut dst = Generator::new();
+            let n = *rng.pick(&[300usize, 3000, 20000]);
+            let junk = bytes::gen_kind(rng, 0, n);
+            let _ = dst.set_fixed_input_size(n as u64);
+            dst.update(&junk);
+            dst.clone_from(&h.g);
+            h.log.push("clone_from onto a used generator".into());
+            dst
+        };
         h.set_hint(l, MAX_INPUT + 7, false);
         let a = observe(&h.g);
         let b = observe(&before);
